@@ -82,8 +82,10 @@ Definition accepted (vectorize : bool) (inp : arr * list nat) : bool :=
 (* CircuitTemplate.run(solver = euler | heun, inputs = ...) on the network, all units requested as outputs *)
 Definition run_inputs (s : solver) (vectorize : bool) (depth : nat) (T dt udef : Qc) (W : list row)
            (inputs : list (arr * list nat)) (x0 : row) : outcome :=
-  if (2 <=? depth)%nat && negb (length inputs =? 0)%nat then ErrAttribute     (* D30: _add_input_node nests plain dicts *)
-  else if negb (forallb (accepted vectorize) inputs) then ErrShape           (* (N,n) needs vectorize and n = #targets *)
+  (* `depth` = hierarchy depth of the circuit: since fix D89 (_add_input_node nests CircuitTemplate objects) the input
+     node is placed in input_lvl_i circuits of the same depth and the result does not depend on it (before: any input at
+     depth >= 2 raised AttributeError, D30) *)
+  if negb (forallb (accepted vectorize) inputs) then ErrShape           (* (N,n) needs vectorize and n = #targets *)
   else if existsb (fun inp => (alen (fst inp) <? rnd (T / dt))%nat) inputs then ErrIndex   (* index(inp, t) past the end *)
   else run_model (net_rhs udef W inputs) s T dt None 0%Qc (seq 0 (length x0)) x0 tt.
 
@@ -128,6 +130,5 @@ Definition NoDupb (l : list nat) : bool :=
 Definition input_ok (vectorize : bool) (steps : nat) (inp : arr * list nat) : bool :=
   accepted vectorize inp && (steps <=? alen (fst inp))%nat && NoDupb (snd inp) &&
   match fst inp with A2 r => forallb (fun row => (length row =? length (hd [] r))%nat) r | _ => true end.
-Definition depth_ok (depth : nat) (inputs : list (arr * list nat)) : bool := (depth <? 2)%nat || (length inputs =? 0)%nat.
-Definition inputs_guard (vectorize : bool) (depth : nat) (T dt : Qc) (inputs : list (arr * list nat)) : bool :=
-  depth_ok depth inputs && forallb (input_ok vectorize (rnd (T / dt))) inputs.
+Definition inputs_guard (vectorize : bool) (T dt : Qc) (inputs : list (arr * list nat)) : bool :=
+  forallb (input_ok vectorize (rnd (T / dt))) inputs.
